@@ -284,32 +284,44 @@ Lemma j_out_st_out st cs : j_out (st_out st cs) = rev cs ++ j_out st. Proof. des
 Lemma j_out_st_after st cs : j_out (st_after st cs) = rev cs ++ j_out st. Proof. destruct st; reflexivity. Qed.
 Lemma buf_out st cs : j_buf (st_out st cs) = j_buf st. Proof. destruct st; reflexivity. Qed.
 
+(* the formatter of the generator's options writes no import line for a call or a directive (the ES5 formatter: its
+   Call / Directive methods return an empty import; the ES6 formatter returns  import { f } from 'f.js';) *)
+Definition c04_imp_free (o : jopts) : Prop :=
+  forall name, fmt_chunks (fmt_call_text (o_fmt o)) name = [] /\ fmt_chunks (fmt_directive (o_fmt o)) name = [].
+Lemma c04_imp_free_es5 o : o_fmt o = ES5 -> c04_imp_free o.
+Proof. intros E name. rewrite E. split; reflexivity. Qed.
+
 Section PrintChunks.
 Variable o : jopts.
 
 Lemma print_scan_subset ds : forall escape kept st,
   exists c, print_scan o (map pdir_node ds) escape kept st
-            = Ok ((match ds with [] => escape | _ => 2 end, kept ++ escs ds), set_called c st).
+            = Ok ((match ds with [] => escape | _ => 2 end, kept ++ escs ds), set_called c st)
+            /\ (c04_imp_free o -> c = j_called st).
 Proof.
   induction ds as [|d r IH]; intros escape kept st; cbn [map print_scan pdir_node].
-  - exists (j_called st). rewrite set_called_same. unfold escs. cbn. rewrite app_nil_r. reflexivity.
+  - exists (j_called st). rewrite set_called_same. unfold escs. cbn. rewrite app_nil_r. split; reflexivity.
   - destruct d; cbn [pdir_name].
     + (* id *) replace (assoc_s n_id js_directives) with (Some (@nil N, true)) by reflexivity. cbn iota.
       replace (bstr_eqb n_id n_id || bstr_eqb n_id n_noAutoescape) with true by reflexivity.
-      destruct (IH 2 kept st) as (c & E). exists c. rewrite E. destruct r; reflexivity.
+      destruct (IH 2 kept st) as (c & E & Hc). exists c. rewrite E. split; [destruct r; reflexivity|exact Hc].
     + replace (assoc_s n_noAutoescape js_directives) with (Some (@nil N, true)) by reflexivity. cbn iota.
       replace (bstr_eqb n_noAutoescape n_id || bstr_eqb n_noAutoescape n_noAutoescape) with true by reflexivity.
-      destruct (IH 2 kept st) as (c & E). exists c. rewrite E. destruct r; reflexivity.
+      destruct (IH 2 kept st) as (c & E & Hc). exists c. rewrite E. split; [destruct r; reflexivity|exact Hc].
     + replace (assoc_s n_escapeHtml js_directives) with (Some (directive_js n_escapeHtml, true)) by reflexivity. cbn iota.
       replace (bstr_eqb n_escapeHtml n_id || bstr_eqb n_escapeHtml n_noAutoescape) with false by reflexivity.
       replace (bstr_eqb n_escapeHtml n_changeNewlineToBr || bstr_eqb n_escapeHtml n_insertWordBreaks) with false by reflexivity.
       cbn iota.
-      assert (Hn : exists c1, note_called n_escapeHtml (fmt_chunks (fmt_directive (o_fmt o)) (directive_js n_escapeHtml)) st = Ok (tt, set_called c1 st)).
-      { unfold note_called. destruct (fmt_chunks _ _); [exists (j_called st); rewrite set_called_same; reflexivity|]. eexists. reflexivity. }
-      destruct Hn as (c1 & Hn). erewrite jbind_ok; [|exact Hn].
-      destruct (IH 2 (kept ++ [(n_escapeHtml, [])]) (set_called c1 st)) as (c & E). exists c.
-      etransitivity; [exact E|]. rewrite set_called_twice.
-      unfold escs. cbn [filter is_esc map]. rewrite <- app_assoc. destruct r; reflexivity.
+      assert (Hn : exists c1, note_called n_escapeHtml (fmt_chunks (fmt_directive (o_fmt o)) (directive_js n_escapeHtml)) st = Ok (tt, set_called c1 st)
+                              /\ (c04_imp_free o -> c1 = j_called st)).
+      { unfold note_called. destruct (fmt_chunks (fmt_directive (o_fmt o)) (directive_js n_escapeHtml)) as [|ch chs] eqn:Ef.
+        - exists (j_called st); rewrite set_called_same; split; reflexivity.
+        - eexists. split; [reflexivity|]. intro HF. rewrite (proj2 (HF _)) in Ef. discriminate Ef. }
+      destruct Hn as (c1 & Hn & Hc1). erewrite jbind_ok; [|exact Hn].
+      destruct (IH 2 (kept ++ [(n_escapeHtml, [])]) (set_called c1 st)) as (c & E & Hc). exists c. split.
+      * etransitivity; [exact E|]. rewrite set_called_twice.
+        unfold escs. cbn [filter is_esc map]. rewrite <- app_assoc. destruct r; reflexivity.
+      * intro HF. rewrite (Hc HF). rewrite <- (Hc1 HF). destruct st; reflexivity.
 Qed.
 
 Lemma print_opens_escs k st :
@@ -331,20 +343,22 @@ Lemma rev_rep {A} k (c : A) : rev (rep k [c]) = rep k [c].
 Proof. induction k as [|k IH]; [reflexivity|]. cbn [rep app rev]. rewrite IH. apply rep_single_comm. Qed.
 
 (* the statement JsGen writes for {print e|ds}:  buf += <cgen_print_expr (autoescape mode) ds e>; *)
-Theorem cgen_print_dirs e ds lv fuel st : (S (cdepth e) < fuel)%nat -> cwf lv e = true -> lvok lv (j_scope st) ->
+Theorem cgen_print_dirs_fr e ds lv fuel st : (S (cdepth e) < fuel)%nat -> cwf lv e = true -> lvok lv (j_scope st) ->
   exists stf, jwalk o fuel (NPrint 0 (cnode e) (map pdir_node ds)) st = Ok (tt, stf)
     /\ j_out stf = rev ([CText (indent_text (j_indent st)); CName (j_buf st); CText t_pluseq]
                         ++ jprint (cgen_print_expr (j_auto st) ds (cgen (j_scope st) e)) ++ [CText t_semi_nl]) ++ j_out st
-    /\ j_indent stf = j_indent st /\ j_buf stf = j_buf st /\ j_scope stf = j_scope st /\ j_auto stf = j_auto st /\ j_n stf = j_n st.
+    /\ j_indent stf = j_indent st /\ j_buf stf = j_buf st /\ j_scope stf = j_scope st /\ j_auto stf = j_auto st /\ j_n stf = j_n st
+    /\ (c04_imp_free o -> j_called stf = j_called st).
 Proof.
   intros Hf Hwf Hlv. destruct fuel as [|f]; [lia|]. rewrite jwalk_S. cbn [soydoc_flags].
   set (st1 := jset_cur None st).
-  assert (H1 : j_auto st1 = j_auto st /\ j_indent st1 = j_indent st /\ j_buf st1 = j_buf st /\ j_scope st1 = j_scope st /\ j_out st1 = j_out st /\ j_n st1 = j_n st)
+  assert (H1 : j_auto st1 = j_auto st /\ j_indent st1 = j_indent st /\ j_buf st1 = j_buf st /\ j_scope st1 = j_scope st /\ j_out st1 = j_out st /\ j_n st1 = j_n st /\ j_called st1 = j_called st)
     by (subst st1; destruct st; cbn; auto 10).
-  destruct H1 as (A1 & I1 & B1 & S1 & O1 & N1). rewrite <- S1 in Hlv. rewrite <- A1, <- I1, <- B1, <- S1, <- O1, <- N1. clearbody st1.
+  destruct H1 as (A1 & I1 & B1 & S1 & O1 & N1 & C1). rewrite <- S1 in Hlv. rewrite <- A1, <- I1, <- B1, <- S1, <- O1, <- N1, <- C1. clearbody st1.
   cbn [jwalk_node]. unfold visit_print. erewrite jbind_ok; [|reflexivity].
-  destruct (print_scan_subset ds (j_auto st1) [] st1) as (c & Es). erewrite jbind_ok; [|exact Es]. cbn [app].
+  destruct (print_scan_subset ds (j_auto st1) [] st1) as (c & Es & Hc). erewrite jbind_ok; [|exact Es]. cbn [app].
   set (st2 := set_called c st1).
+  assert (C2 : c04_imp_free o -> j_called st2 = j_called st1) by (intro HF; subst st2; rewrite (Hc HF); destruct st1; reflexivity).
   assert (H2 : j_auto st2 = j_auto st1 /\ j_indent st2 = j_indent st1 /\ j_buf st2 = j_buf st1 /\ j_scope st2 = j_scope st1 /\ j_out st2 = j_out st1 /\ j_n st2 = j_n st1)
     by (subst st2; destruct st1; cbn; auto 10).
   destruct H2 as (A2 & I2 & B2 & S2 & O2 & N2). rewrite <- S2 in Hlv. rewrite <- I2, <- B2, <- S2, <- O2, <- N2. clearbody st2.
@@ -366,7 +380,16 @@ Proof.
   rewrite jtxt_out. eexists. split; [reflexivity|]. split.
   - rewrite !j_out_st_out, j_out_st_after, !j_out_st_out, !scope_out, !buf_out. rewrite jprint_esc_n.
     rewrite !app_assoc. rewrite <- !rev_app_distr. f_equal. f_equal. rewrite <- ?app_assoc. cbn [app]. reflexivity.
-  - unfold st_after, st_out. destruct st2; cbn. auto 10.
+  - unfold st_after, st_out. destruct st2; cbn in *. repeat split; auto.
+Qed.
+Theorem cgen_print_dirs e ds lv fuel st : (S (cdepth e) < fuel)%nat -> cwf lv e = true -> lvok lv (j_scope st) ->
+  exists stf, jwalk o fuel (NPrint 0 (cnode e) (map pdir_node ds)) st = Ok (tt, stf)
+    /\ j_out stf = rev ([CText (indent_text (j_indent st)); CName (j_buf st); CText t_pluseq]
+                        ++ jprint (cgen_print_expr (j_auto st) ds (cgen (j_scope st) e)) ++ [CText t_semi_nl]) ++ j_out st
+    /\ j_indent stf = j_indent st /\ j_buf stf = j_buf st /\ j_scope stf = j_scope st /\ j_auto stf = j_auto st /\ j_n stf = j_n st.
+Proof.
+  intros Hf Hwf Hlv. destruct (cgen_print_dirs_fr e ds lv fuel st Hf Hwf Hlv) as (stf & E & O & I & B & S & A & N & _).
+  exists stf. auto 10.
 Qed.
 End PrintChunks.
 
